@@ -107,6 +107,10 @@ def gen_document(rng):
                 f["content"][f"r{i}{j}"] = "$" + a
             elif m == 1:
                 f["content"][f"e{i}{j}"] = f"${a} + {rng.randrange(1, 9)}"
+                if rng.random() < 0.3:
+                    # blanks around the expression text (a compound expression: a padded LONE reference is a recorded
+                    # difference of the two front ends, Properties/C09.v C09_padded_reference_finding)
+                    f["content"][f"e{i}{j}"] = rng.choice([" ", "  "]) + f["content"][f"e{i}{j}"] + rng.choice([" ", ""])
             elif m == 2 and len(used) > 1:
                 b = rng.choice([u for u in used if u != a])
                 f["content"][f"e{i}{j}"] = f"${a} * ${b}"
